@@ -468,7 +468,7 @@ def gen_passthrough(rng):
     return {'nls': nls, 'els': els, 'elorder': elorder, 'start': start, 'rules': rules, 'w': w, 'wmp': wmp}
 
 
-def build_incremental(ag, on_step, with_start_first=True):
+def build_incremental(ag, on_step, with_start_first=True, detour_rng=None):
     """Build the HRG step by step through the public API, calling on_step(hrg, stage_ag) after the
     constructor, after every label registration batch and after every rule -- so that queries are
     observed on every prefix of the construction history (stale caches show up here)."""
@@ -495,7 +495,37 @@ def build_incremental(ag, on_step, with_start_first=True):
         for k, e in enumerate(r['edges']):
             rhs.add_edge(Edge(el[e['lab']], [nodes[a - 1] for a in e['att']], id=f'r{ri}e{k+1}'))
         rhs.ext = [nodes[a - 1] for a in r['ext']]
+        detour = None
+        if detour_rng is not None and detour_rng.random() < 0.6:
+            # a DETOUR in the history: a nonterminal edge (or just its label) that the right-hand side holds for a
+            # while and loses again -- the finished grammar is the same, only label tables remember it
+            cands = []
+            for n, d in ag['els'].items():
+                if d['t']:
+                    continue
+                att, ok = [], True
+                for l in d['type']:
+                    c = [v for v in nodes if v.label.name == l]
+                    if not c:
+                        ok = False
+                        break
+                    att.append(detour_rng.choice(c))
+                if ok:
+                    cands.append((n, att))
+            if cands:
+                n, att = detour_rng.choice(cands)
+                kind = detour_rng.choice(['edge_before', 'edge_after', 'label'])
+                if kind == 'label':
+                    rhs.add_edge_label(el[n])
+                else:
+                    detour = Edge(el[n], att, id=f'r{ri}detour')
+                    rhs.add_edge(detour)
+                    if kind == 'edge_before':
+                        rhs.remove_edge(detour)
+                        detour = None
         g.add_rule(HRGRule(el[r['lhs']], rhs))
+        if detour is not None:
+            rhs.remove_edge(detour)         # the rule shares its right-hand side: removed after add_rule
         stage = dict(stage, rules=stage['rules'] + [r])
         on_step(g, stage)
     return g
